@@ -59,6 +59,14 @@ struct Case {
     /// how the estimator / parameter set is constructed: "canonical" or one of the forms of `builder_specs`
     #[serde(default = "canonical_form")]
     form: String,
+    /// target scale c of the equivariance family: the targets are c * data.y and the penalty acts as
+    /// (c * penalty * l1_ratio) on the l1 part and penalty * (1 - l1_ratio) on the l2 part, so that the
+    /// minimiser is c times the one of the unscaled case (`penalty` / `l1_ratio` hold the unscaled values)
+    #[serde(default = "one")]
+    y_scale: f64,
+}
+fn one() -> f64 {
+    1.0
 }
 fn std_layout() -> String {
     "std".to_string()
@@ -81,6 +89,19 @@ struct Spec {
     y_layout: &'static str,
     pred_layout: &'static str,
     form: String,
+    y_scale: f64,
+}
+/// The parameter set actually handed to the estimator for target scale c.
+fn effective(s: &Spec) -> Spec {
+    let mut e = s.clone();
+    let c = s.y_scale;
+    if c != 1.0 {
+        let l1 = c * s.penalty * s.l1_ratio;
+        let l2 = s.penalty * (1.0 - s.l1_ratio);
+        e.penalty = l1 + l2;
+        e.l1_ratio = if l1 + l2 > 0.0 { l1 / (l1 + l2) } else { s.l1_ratio };
+    }
+    e
 }
 impl Spec {
     fn is_std(&self) -> bool {
@@ -407,12 +428,14 @@ fn round_to(float: &str, v: f64) -> f64 {
 }
 
 /// Runs one fit and judges it. Pure function of (data, spec).
-fn run_fit(data: &Data, s: &Spec, viols: &mut Vec<Violation>, st: &mut Stats) -> Option<FitOut> {
+fn run_fit(data: &Data, s0: &Spec, viols: &mut Vec<Violation>, st: &mut Stats) -> Option<FitOut> {
+    let eff = effective(s0);
+    let s = &eff;
     let n = data.x.len();
     let p = data.x[0].len();
     // the numbers as the subject sees them (after rounding to its float type)
     let x: Vec<Vec<f64>> = data.x.iter().map(|r| r.iter().map(|&v| round_to(s.float, v)).collect()).collect();
-    let y: Vec<Vec<f64>> = data.y.iter().map(|r| s.targets.iter().map(|&t| round_to(s.float, r[t])).collect()).collect();
+    let y: Vec<Vec<f64>> = data.y.iter().map(|r| s.targets.iter().map(|&t| round_to(s.float, s.y_scale * r[t])).collect()).collect();
     let t = s.targets.len();
     let case_json = || -> Value {
         serde_json::to_value(Case {
@@ -420,8 +443,8 @@ fn run_fit(data: &Data, s: &Spec, viols: &mut Vec<Violation>, st: &mut Stats) ->
             float: s.float.to_string(),
             est: s.est.to_string(),
             targets: s.targets.clone(),
-            penalty: s.penalty,
-            l1_ratio: s.l1_ratio,
+            penalty: s0.penalty,
+            l1_ratio: s0.l1_ratio,
             intercept: s.intercept,
             tol: s.tol,
             max_iter: s.max_iter,
@@ -429,6 +452,7 @@ fn run_fit(data: &Data, s: &Spec, viols: &mut Vec<Violation>, st: &mut Stats) ->
             y_layout: s.y_layout.to_string(),
             pred_layout: s.pred_layout.to_string(),
             form: s.form.clone(),
+            y_scale: s.y_scale,
         })
         .unwrap()
     };
@@ -605,6 +629,17 @@ fn run_fit(data: &Data, s: &Spec, viols: &mut Vec<Violation>, st: &mut Stats) ->
     // ---- gap >= 0
     if out.gap < -tl.c_gap * mag2 {
         viols.push(Violation::new(format!("{}.duality_gap.negative", s.est), format!("reported duality gap {} < 0 (||y||^2 = {}, operand magnitude {})", out.gap, ysq, mag2), case_json()));
+    }
+    // ---- the documented stopping rule: a run that did not end on the iteration cap has gap < tol * ||y_c||^2
+    let ycsq = prob.y_centred_sq(s.intercept);
+    let rel = if s.float == "f32" { 1e-4 } else { 1e-9 };
+    st.max(if s.float == "f32" { "max_gap_over_documented_tolerance_f32" } else { "max_gap_over_documented_tolerance_f64" }, out.gap / (s.tol * ycsq * (1.0 + rel) + tl.c_gap * mag2));
+    if out.gap > s.tol * ycsq * (1.0 + rel) + tl.c_gap * mag2 {
+        viols.push(Violation::new(
+            format!("{}.duality_gap.above_documented_tolerance", s.est),
+            format!("the run stopped after {} of {} iterations with reported gap {:e} = {:e} x ||y_c||^2, tolerance {:e} (||y_c||^2 = {:e}, ||y_c|| = {:e})", out.n_steps, s.max_iter, out.gap, out.gap / ycsq, s.tol, ycsq, ycsq.sqrt()),
+            case_json(),
+        ));
     }
     let bound = out.gap.max(0.0) / n as f64 + eps;
 
@@ -831,6 +866,7 @@ fn spec_of(c: &Case) -> Spec {
         y_layout: lay(&c.y_layout),
         pred_layout: lay(&c.pred_layout),
         form: c.form.clone(),
+        y_scale: c.y_scale,
     }
 }
 
@@ -874,6 +910,7 @@ fn run_case(data: &Data, s: &Spec, viols: &mut Vec<Violation>, st: &mut Stats) {
                 y_layout: "std".into(),
                 pred_layout: "std".into(),
                 form: s.form.clone(),
+                y_scale: s.y_scale,
             })
             .unwrap();
             c.as_object_mut().unwrap().insert("builder_family".into(), json!(true));
@@ -881,6 +918,72 @@ fn run_case(data: &Data, s: &Spec, viols: &mut Vec<Violation>, st: &mut Stats) {
                 format!("{}.params.{}", s.est, kind),
                 format!("form {} (final logical set: penalty {}, l1_ratio {}, intercept {}, tol {}, max_iterations {}): model {} differs from the canonical construction: {}", s.form, s.penalty, s.l1_ratio, s.intercept, s.tol, s.max_iter, show(&b), show(&a)),
                 c,
+            ));
+        }
+        return;
+    }
+    if s.y_scale != 1.0 {
+        // equivariance family: fit(X, c y, scaled penalty) must be c x fit(X, y, penalty)
+        let mut base = s.clone();
+        base.y_scale = 1.0;
+        let mut bv = Vec::new();
+        let mut bs = Stats::default();
+        let a = run_fit(data, &base, &mut bv, &mut bs);
+        let b = run_fit(data, s, viols, st);
+        st.inc("equivariance_scaled_runs");
+        let (Some(a), Some(b)) = (a, b) else { return };
+        // a run that stops on its very last iterations has used the whole budget: the gap test is forced at
+        // max_iterations - 1 whatever the coefficients do (f32: a gap at rounding level decides), not compared
+        if a.n_steps + 1 >= s.max_iter || b.n_steps + 1 >= s.max_iter {
+            st.inc("equivariance_compare_skipped_iteration_cap");
+            return;
+        }
+        let c = s.y_scale;
+        let n = data.x.len();
+        let t = s.targets.len();
+        let x: Vec<Vec<f64>> = data.x.iter().map(|r| r.iter().map(|&v| round_to(s.float, v)).collect()).collect();
+        let fitted = |m: &FitOut, f: f64| -> Vec<f64> {
+            let mut out = Vec::with_capacity(n * t);
+            for i in 0..n {
+                for tt in 0..t {
+                    out.push(f * (m.b[tt] + (0..x[i].len()).map(|j| x[i][j] * m.w[j][tt]).sum::<f64>()));
+                }
+            }
+            out
+        };
+        let (fa, fb) = (fitted(&a, c), fitted(&b, 1.0));
+        let diff = fa.iter().zip(fb.iter()).map(|(u, v)| (u - v) * (u - v)).sum::<f64>().sqrt();
+        let scale = fb.iter().map(|v| v * v).sum::<f64>().sqrt() + c * data.y.iter().flatten().map(|v| v * v).sum::<f64>().sqrt();
+        let c_l = if s.float == "f32" { 1e-4 } else { 1e-9 };
+        // the solver's objective scales with c^2, so the gap of the unscaled run corresponds to c^2 gap_a
+        // f32: a reported gap is only meaningful down to the rounding slack 1e-4 x M that the gap >= 0 oracle grants
+        let gslack = if s.float == "f32" { 1e-4 * scale * scale } else { 0.0 };
+        let limit = c_l * scale + (2.0 * (c * c * a.gap.max(0.0) + gslack)).sqrt() + (2.0 * (b.gap.max(0.0) + gslack)).sqrt();
+        st.inc("equivariance_models_compared");
+        st.max(if s.float == "f32" { "equivariance_max_difference_over_limit_f32" } else { "equivariance_max_difference_over_limit_f64" }, diff / limit.max(1e-300));
+        if diff > limit {
+            let mut cj = serde_json::to_value(Case {
+                data: data.clone(),
+                float: s.float.to_string(),
+                est: s.est.to_string(),
+                targets: s.targets.clone(),
+                penalty: s.penalty,
+                l1_ratio: s.l1_ratio,
+                intercept: s.intercept,
+                tol: s.tol,
+                max_iter: s.max_iter,
+                x_layout: "std".into(),
+                y_layout: "std".into(),
+                pred_layout: "std".into(),
+                form: canonical_form(),
+                y_scale: s.y_scale,
+            })
+            .unwrap();
+            cj.as_object_mut().unwrap().insert("equivariance_family".into(), json!(true));
+            viols.push(Violation::new(
+                format!("{}.not_equivariant_under_target_scaling", s.est),
+                format!("targets x {} with the l1 part of the penalty x {}: fitted values differ from {} x the unscaled fit by {:e} (limit {:e} from the two reported gaps {:e}, {:e}); unscaled w={:?} b={:?} n_steps {}, scaled w={:?} b={:?} n_steps {}", c, c, c, diff, limit, a.gap, b.gap, a.w, a.b, a.n_steps, b.w, b.b, b.n_steps),
+                cj,
             ));
         }
         return;
@@ -915,6 +1018,7 @@ fn run_case(data: &Data, s: &Spec, viols: &mut Vec<Violation>, st: &mut Stats) {
             y_layout: s.y_layout.to_string(),
             pred_layout: s.pred_layout.to_string(),
             form: s.form.clone(),
+            y_scale: s.y_scale,
         })
         .unwrap();
         c.as_object_mut().unwrap().insert("layout_family".into(), json!(true));
@@ -940,7 +1044,7 @@ fn run_case(data: &Data, s: &Spec, viols: &mut Vec<Violation>, st: &mut Stats) {
         return;
     }
     let (Some(a), Some(b)) = (a, b) else { return };
-    let capped = s.est != "ols" && (a.n_steps >= s.max_iter || b.n_steps >= s.max_iter);
+    let capped = s.est != "ols" && (a.n_steps + 1 >= s.max_iter || b.n_steps + 1 >= s.max_iter);
     if capped {
         st.inc("layout_compare_skipped_iteration_cap");
         return;
@@ -1000,6 +1104,8 @@ struct Task {
     layouts: bool,
     /// the builder family (constructors, setter orders, decoy writes) instead of the grid
     builder: bool,
+    /// the equivariance family (target scales x scaled penalties) instead of the grid
+    equiv: bool,
     /// large members: the grid is split by penalty into 5 tasks (parallelism); None = whole grid
     penalty_chunk: Option<usize>,
 }
@@ -1023,6 +1129,46 @@ fn in_layout_family(d: &Data, thorough: bool) -> bool {
     } else {
         d.x.len() < 1000 && ((o == 5.0 && sc == 1.0) || (o == 0.0 && sc == 1e3))
     }
+}
+
+const Y_SCALES: [f64; 3] = [1e-3, 1e-2, 1e2];
+
+/// Members of the equivariance family: the correlated / suppressor designs under their mean-zero images.
+fn in_equivariance_family(d: &Data) -> bool {
+    (d.design.contains("sheared") || d.design.contains("nearly_collinear")) && d.offsets.iter().all(|&o| o == 0.0) && (d.variant == "full_rank" || d.variant == "suppressor_targets")
+}
+
+fn equivariance_specs(ctx: &Ctx, task: &Task) -> Vec<Spec> {
+    let mut v = Vec::new();
+    let target_sets: Vec<Vec<usize>> = if task.est == "mtl" { vec![vec![0, 1, 2]] } else { vec![vec![0], vec![2]] };
+    for targets in target_sets {
+        for &y_scale in &Y_SCALES {
+            for penalty in [1e-4, 1e-2, 1e-1] {
+                for l1_ratio in [0.5, 1.0] {
+                    for intercept in [true, false] {
+                        for &tol in &TOLS {
+                            v.push(Spec {
+                                float: task.float,
+                                est: if task.est == "mtl" { "mtl" } else { "enet" },
+                                targets: targets.clone(),
+                                penalty,
+                                l1_ratio,
+                                intercept,
+                                tol,
+                                max_iter: ctx.pick(MAX_ITER_QUICK, MAX_ITER),
+                                x_layout: "std",
+                                y_layout: "std",
+                                pred_layout: "std",
+                                form: canonical_form(),
+                                y_scale,
+                            });
+                        }
+                    }
+                }
+            }
+        }
+    }
+    v
 }
 
 /// Members of the builder family: three small data sets (offset 0 and 5).
@@ -1050,6 +1196,7 @@ fn builder_specs(task: &Task) -> Vec<Spec> {
         y_layout: "std",
         pred_layout: "std",
         form,
+        y_scale: 1.0,
     };
     if task.est == "ols" {
         for intercept in [true, false] {
@@ -1102,7 +1249,7 @@ fn layout_specs(ctx: &Ctx, task: &Task) -> Vec<Spec> {
     for (xl, yl, pl) in combos {
         if task.est == "ols" {
             for intercept in [true, false] {
-                v.push(Spec { float: task.float, est: "ols", targets: vec![0], penalty: 0.0, l1_ratio: 0.0, intercept, tol: 0.0, max_iter: 0, x_layout: xl, y_layout: yl, pred_layout: pl, form: canonical_form() });
+                v.push(Spec { float: task.float, est: "ols", targets: vec![0], penalty: 0.0, l1_ratio: 0.0, intercept, tol: 0.0, max_iter: 0, x_layout: xl, y_layout: yl, pred_layout: pl, form: canonical_form(), y_scale: 1.0 });
             }
         } else {
             for penalty in [0.01, 1.0] {
@@ -1122,6 +1269,7 @@ fn layout_specs(ctx: &Ctx, task: &Task) -> Vec<Spec> {
                             y_layout: yl,
                             pred_layout: pl,
                             form: canonical_form(),
+                            y_scale: 1.0,
                         });
                     }
                 }
@@ -1135,6 +1283,9 @@ fn specs_for(ctx: &Ctx, task: &Task, reduced_targets: bool) -> Vec<Spec> {
     if task.builder {
         return builder_specs(task);
     }
+    if task.equiv {
+        return equivariance_specs(ctx, task);
+    }
     if task.layouts {
         return layout_specs(ctx, task);
     }
@@ -1143,7 +1294,7 @@ fn specs_for(ctx: &Ctx, task: &Task, reduced_targets: bool) -> Vec<Spec> {
         "ols" => {
             for tcol in 0..3 {
                 for intercept in [true, false] {
-                    v.push(Spec { float: task.float, est: "ols", targets: vec![tcol], penalty: 0.0, l1_ratio: 0.0, intercept, tol: 0.0, max_iter: 0, x_layout: "std", y_layout: "std", pred_layout: "std", form: canonical_form() });
+                    v.push(Spec { float: task.float, est: "ols", targets: vec![tcol], penalty: 0.0, l1_ratio: 0.0, intercept, tol: 0.0, max_iter: 0, x_layout: "std", y_layout: "std", pred_layout: "std", form: canonical_form(), y_scale: 1.0 });
                 }
             }
         }
@@ -1175,7 +1326,7 @@ fn specs_for(ctx: &Ctx, task: &Task, reduced_targets: bool) -> Vec<Spec> {
                                 } else {
                                     ctx.pick(MAX_ITER_NO_L1_QUICK, MAX_ITER_NO_L1)
                                 };
-                                v.push(Spec { float: task.float, est: if est == "enet" { "enet" } else { "mtl" }, targets: targets.clone(), penalty, l1_ratio, intercept, tol, max_iter, x_layout: "std", y_layout: "std", pred_layout: "std", form: canonical_form() });
+                                v.push(Spec { float: task.float, est: if est == "enet" { "enet" } else { "mtl" }, targets: targets.clone(), penalty, l1_ratio, intercept, tol, max_iter, x_layout: "std", y_layout: "std", pred_layout: "std", form: canonical_form(), y_scale: 1.0 });
                             }
                         }
                     }
@@ -1199,6 +1350,7 @@ fn main() {
          Large replicated members: the 4-level, 2x3 and Latin-square designs repeated cyclically to n in {1025, 4097} (quick: 2x3 at 1025), images (0,1), (5,1), (0,1e3) (n = 4097: the first two; quick: the first), all estimators with reduced target sets and the quick iteration budgets (1e4 / 300) in both tiers. \
          Layout family: on the well-conditioned images (offset {0,5}, scale {1,1e3}) of four designs (n = 6, 9, 16, 1025) every estimator is also run with records / targets / predict input as column-major owned array (f), transposed view of a feature-major array (t), reversed-row view of a reversed copy (rev), every second row of a larger array with NaN filler rows (stride2): 8 (1-D targets) or 10 layout combinations x {OLS intercept on/off; penalty {.01,1} x l1_ratio {.5,1} x intercept x tol 1e-8 (f32: 1e-4)}. \
          Correlated designs: sheared factorials (x0 = s + e, x1 = e; x0 = s, x1 = s + e, x2 = s + e + f), a nearly collinear pair (a, 3a + b), each also with 'suppressor_targets' (y = K (z0 - z1) + c + small noise: a feature with (almost) zero marginal correlation and a non-zero optimal coefficient). \
+         Equivariance family: on the mean-zero images of the correlated / suppressor designs, targets x c for c in {1e-3, 1e-2, 1e2} with the l1 part of the penalty x c (l2 part unchanged: the minimiser is then c x the unscaled one), base penalties {1e-4, 1e-2, 1e-1} x l1_ratio {.5, 1} x intercept x tol {1e-4, 1e-8}; every scaled run is judged by all oracles on the scaled problem and compared with c x the unscaled fit. \
          Builder family (3 small data sets): LinearRegression through new() / default() with and without with_intercept and with a decoy write first; ElasticNet / MultiTaskElasticNet parameter sets through all 120 orders of the five setters, the constructors params() / new() / default() / ridge() / lasso(), a decoy-then-real write of every field, and the setter-free forms (documented defaults). \
          Estimators: OLS (each target column, intercept on / off), ElasticNet (single target columns), MultiTaskElasticNet (first 1..3 target columns; quick: all 3); grid penalty {0,.01,.1,1,10} x l1_ratio {0,.5,1} x intercept {on,off} x tol {1e-4,1e-8}; \
          max_iterations 1e5 (quick 1e4) when penalty*l1_ratio > 0, 2000 (quick 300) when penalty*l1_ratio = 0 (the implementation's gap then equals the primal objective and never closes on noisy targets); f32 and f64. \
@@ -1214,7 +1366,9 @@ fn main() {
     ctx.assume("OLS: |x_j.r| <= c x ||x_j|| x S, |1.r| <= c x sqrt(n) x S and, with intercept, |(x_j - mean_j).r| <= c x ||x_j - mean_j|| x S, with S = ||y|| + sum_k ||x_k|| |beta_k| + sqrt(n)|b| (backward-error scale of a least-squares solve), c = 1e-12 (f64) / 1e-5 (f32) x max(1, sqrt(n / 40)) (n <= 40: the plain constant; the factor only concerns the n >= 1025 members) (a Householder QR stays below 1e-3 of these on the whole catalogue, see ols_max_*_ratio); SSE ladder slack (c S)^2");
     ctx.assume("OLS: SSE <= reference minimum + (c (S + kappa ||r||))^2 + 8 eps_f64 x max(1, sqrt(n / 40)) x evaluation magnitude; reference = modified Gram-Schmidt on the augmented matrix of centred (with intercept), unit-norm columns in f64; both SSEs are evaluated on the centred data; kappa = the reference's condition estimate of [X | 1]");
     ctx.assume("predict == X w + b within 1e-12 (f64) / 1e-5 (f32) x (sum |x_ij w_j| + |b|)");
-    ctx.assume("layout family: every layout run is judged by all oracles and must give the same verdicts as the standard-layout run of the same case; fitted values X w + b of the two models (f64) must agree within 1e-9 (f64) / 1e-4 (f32) x (||fitted|| + ||y||) + sqrt(2 gap_1) + sqrt(2 gap_2) (two points whose suboptimality is bounded by their gaps); runs on the iteration cap are not compared (counted); arithmetic order of ndarray's dot differs between contiguous and strided columns, so bit-identity is only counted (layout_models_bit_identical), not demanded");
+    ctx.assume("layout family: every layout run is judged by all oracles and must give the same verdicts as the standard-layout run of the same case; fitted values X w + b of the two models (f64) must agree within 1e-9 (f64) / 1e-4 (f32) x (||fitted|| + ||y||) + sqrt(2 gap_1) + sqrt(2 gap_2) (two points whose suboptimality is bounded by their gaps); runs that end on the iteration cap or on the forced gap test of the last iteration are not compared (counted); arithmetic order of ndarray's dot differs between contiguous and strided columns, so bit-identity is only counted (layout_models_bit_identical), not demanded");
+    ctx.assume("documented stopping rule: every elastic-net / multi-task fit that did not end on the iteration cap must report gap <= tol x ||y_c||^2 x (1 + 1e-9 (f64) / 1e-4 (f32)) + c_gap x M (y_c = targets, centred when an intercept is fitted)");
+    ctx.assume("equivariance: || X w_c + b_c - c (X w + b) || <= 1e-9 (f64) / 1e-4 (f32) x (||fitted|| + c ||y||) + sqrt(2 (c^2 gap + g)) + sqrt(2 (gap_c + g)) (the solver's objective scales with c^2; g = 0 in f64, 1e-4 x (||fitted|| + c||y||)^2 in f32, the rounding slack of an f32 gap); runs that end on the iteration cap or on the forced gap test of the last iteration are not compared (counted)");
     ctx.assume("builder family: the checked parameter set's getters must equal the final logical set exactly, and the fitted model (coefficients, intercept, gap, n_steps, predictions) must be bit-identical to the one of the canonical construction new().with_intercept(e) / params().penalty().l1_ratio().with_intercept().tolerance().max_iterations(); every form is also judged by all oracles with the documented / final parameters");
     ctx.assume("predict_inplace (every fit): the result written into a NaN-filled buffer and into a buffer holding the predictions of the reversed batch must be bit-identical to predict()");
     ctx.assume("iteration cap on an easy problem: n <= 100, l1 part > 0, not a mean-zero orthogonal design (own signature), f64 or f32 as above, and the harness's plain cyclic (block) coordinate descent on the very problem the implementation iterates on (records as given, targets centred when an intercept is fitted, start 0, same duality-gap formula) reaches gap < 0.5 x (f32: 0.01 x) tol ||y||^2 with coefficient changes < tol/10 within N <= 100 sweeps, and max_iterations >= 100 N; counted in cap_on_easy_problem_checked (cannot hold for penalty*l1_ratio = 0, where the gap never closes)");
@@ -1236,16 +1390,19 @@ fn main() {
                 }
                 if d.reduced_targets && est != "ols" {
                     for c in 0..PENALTIES.len() {
-                        tasks.push(Task { data: i, float, est, layouts: false, builder: false, penalty_chunk: Some(c) });
+                        tasks.push(Task { data: i, float, est, layouts: false, builder: false, equiv: false, penalty_chunk: Some(c) });
                     }
                 } else {
-                    tasks.push(Task { data: i, float, est, layouts: false, builder: false, penalty_chunk: None });
+                    tasks.push(Task { data: i, float, est, layouts: false, builder: false, equiv: false, penalty_chunk: None });
+                }
+                if est != "ols" && in_equivariance_family(d) {
+                    tasks.push(Task { data: i, float, est, layouts: false, builder: false, equiv: true, penalty_chunk: None });
                 }
                 if in_builder_family(d) {
-                    tasks.push(Task { data: i, float, est, layouts: false, builder: true, penalty_chunk: None });
+                    tasks.push(Task { data: i, float, est, layouts: false, builder: true, equiv: false, penalty_chunk: None });
                 }
                 if in_layout_family(d, thorough) {
-                    tasks.push(Task { data: i, float, est, layouts: true, builder: false, penalty_chunk: None });
+                    tasks.push(Task { data: i, float, est, layouts: true, builder: false, equiv: false, penalty_chunk: None });
                 }
             }
         }
@@ -1282,7 +1439,7 @@ fn main() {
         }
         st.add("specs_visited", specs.len() as u64);
         ctx.violations(v);
-        ctx.sample(|| json!({"design": data.design, "variant": data.variant, "offsets": data.offsets, "scales": data.scales, "n": data.x.len(), "x_first_rows": data.x.iter().take(12).collect::<Vec<_>>(), "y_first_rows": data.y.iter().take(12).collect::<Vec<_>>(), "float": task.float, "estimator": task.est, "layout_family": task.layouts, "builder_family": task.builder, "fits": specs.len()}));
+        ctx.sample(|| json!({"design": data.design, "variant": data.variant, "offsets": data.offsets, "scales": data.scales, "n": data.x.len(), "x_first_rows": data.x.iter().take(12).collect::<Vec<_>>(), "y_first_rows": data.y.iter().take(12).collect::<Vec<_>>(), "float": task.float, "estimator": task.est, "layout_family": task.layouts, "builder_family": task.builder, "equivariance_family": task.equiv, "fits": specs.len()}));
         global.lock().unwrap().merge(st);
     });
     let g = global.into_inner().unwrap();
